@@ -385,7 +385,11 @@ pub fn run(ctx: &Ctx) -> i32 {
         fuzz_campaign(ctx, "fuzz_prog", 8, 300_000, 136, &mut stats);
     }
     stats.merge(crate::checks::soup::phase(ctx, P, crate::checks::soup::Flavor::All, ctx.tier.pick(300000, 6000000), 0x20510000, true));
-    let rule_soup = format!("{}{}", rule, crate::checks::soup::RULE);
+    // the same with interrupts accepted between the instructions (their own entry is not charged by anything - but
+    // what an instruction is charged must not depend on what happened before it: "only on instruction form and on
+    // the areas involved")
+    stats.merge(crate::checks::soup::phase_irq(ctx, P, crate::checks::soup::Flavor::All, ctx.tier.pick(150000, 3000000), 0x20520000, true, true));
+    let rule_soup = format!("{}{} Phase 4: the soups again with interrupts accepted at generated instruction boundaries (every vector its own RTE stub): the charge of every instruction after an acceptance is compared as before.", rule, crate::checks::soup::RULE);
     let rule: &str = &rule_soup;
     finish(ctx, P, stats, rule, vec!["cycle table transcribed from the H8/300H programming manual's advanced-mode table (DESIGN Appendix A); cost rule = property C19's statement, re-implemented independently".into()], extra)
 }
